@@ -269,7 +269,9 @@ def run_task(modname, hid, case_idx, tier, seed, prefixes=None, split_depth=None
         return None
 
     maxp = H['max_paths'] or (400 if tier == 'quick' else 3000)
-    _, truncated = explore(body, max_paths=maxp, prefixes=prefixes, on_path=on_path_wrapped)
+    budget = float(os.environ.get('SYMOPT_TASK_BUDGET_S', '0') or 0)
+    _, truncated = explore(body, max_paths=maxp, prefixes=prefixes, on_path=on_path_wrapped,
+                           deadline=(t_start + budget) if budget > 0 else None)
     return dict(hid=hid, case_idx=case_idx, case=case, paths=paths, pending=pending, truncated=truncated,
                 stats=stats, wall=round(time.time() - t_start, 2))
 
